@@ -975,7 +975,7 @@ LEVEL_TEXT = ("Coq theorems (invariants by induction over iterations, for all pa
               "lr*g/(|g|+eps) and steps under constant gradient signs keep the sign of the gradient, the multistart result is the first successful "
               "in-domain end point of maximal value; the model is tied to the code by exact differential runs evaluated inside Coq")
 LEVEL_NOTE = ("Exact arithmetic over Q; restriction under linear constraints and quasi-random generation enter by contract (C08); the Adam square "
-              "root is an oracle certified per case inside Coq; SLSQP/L-BFGS-B enter by their per-run outcome; the multistart first-maximum clause is a _partial theorem decided by "
-              "correspondence and searcher; harness and case printer trusted; no axioms")
+              "root is an oracle certified per case inside Coq; SLSQP/L-BFGS-B enter by their per-run outcome; the multistart clause (per-start outcome lists, first successful end point of maximal value, fallback) is proved in full "
+              "(C07_multistart_best_successful; the literal 'first start' fallback is refuted for a NaN-valued successful first run); harness and case printer trusted; no axioms")
 TECHNIQUE = "Coq proof (invariants, induction) on executable model + in-Coq differential correspondence with scripted NumPy draws"
 DESIGN_REF = "DESIGN.md section 7, C07"
